@@ -223,7 +223,7 @@ func genConform(t *rapid.T, m *Model) (doc string, multiRule bool, patternEl boo
 // genConformStyle: a canonical style string ("prop: value; prop: value") made of declarations
 // that a rule applying to el (documented reading) accepts.
 func genConformStyle(t *rapid.T, m *Model, el string) string {
-	props := m.styleVocabulary()
+	props := plainStyleVocabulary(m)
 	var ds []string
 	n := rapid.IntRange(1, 3).Draw(t, "nsd")
 	for i := 0; i < n && len(props) > 0; i++ {
@@ -345,6 +345,7 @@ func genC07(t *rapid.T) *Case {
 	} else {
 		c.Ints = append(c.Ints, 0)
 	}
+	c.Ints = append(c.Ints, drawStage(t, spec))
 	return c
 }
 
@@ -355,7 +356,10 @@ func checkC07(c *Case, r *Rec) error {
 	}
 	m := BuildModel(c.Spec)
 	in := string(c.Input)
-	out, _ := sanitizeSpec(c.Spec, in)
+	out, _ := sanitizeStaged(c.Spec, in, stageOf(c, 2))
+	if stageOf(c, 2) >= 0 {
+		r.Class("policy_extended_after_first_use")
+	}
 	affected, err := sameModuloForced(m, in, out)
 	if err != nil {
 		return err
